@@ -398,8 +398,32 @@ def concrete_violation(kind, d, tree_type, taus=(), seeds=(0, 1, 2, 3)):
     return False, ''
 
 
+def _near_copy_violation(tree_type, seed):
+    """tables with nearly comonotone columns drive h-function values to exactly 0 or 1 in floats:
+    the attached pseudo-observations must still be strictly inside (0,1)"""
+    warnings.simplefilter('ignore')
+    rs = np.random.RandomState(seed)
+    a = rs.normal(size=300)
+    for eps in (1e-3, 1e-2):
+        X = pd.DataFrame({'v0': a, 'v1': a + eps * rs.normal(size=300)})
+        v = VineCopula(tree_type)
+        try:
+            v.fit(X, truncated=1)
+        except Exception as e:
+            return True, f'near-copy table: fit raises {type(e).__name__}: {e}'
+        for t in v.trees:
+            for e in t.edges:
+                if e.U is not None and (np.any(np.asarray(e.U) <= 0) or np.any(np.asarray(e.U) >= 1)):
+                    return True, f'near-copy table (noise {eps}): pseudo-observations of edge ({e.L},{e.R}) hit {np.min(e.U)} / {np.max(e.U)}, not strictly inside (0,1)'
+    return False, ''
+
+
 def _concrete_violation(kind, d, tree_type, tau=None, seed=0):
     from copulas.bivariate import Bivariate, select_copula
+    if kind == 'clamp':
+        b, detail = _near_copy_violation(tree_type, seed)
+        if b:
+            return b, detail
     try:
         v, X = real_vine(d, tree_type, seed, tau)
     except Exception as e:
